@@ -764,8 +764,13 @@ class WorkflowStateMachine(object):
         # If the final workflow status here is completed, then ensure there is no unreachable
         # barrier task(s). A barrier task is unreachable if the workflow is completed but then one
         # or more criteria for the task is satisified. In this case, log the task and fail the
-        # workflow to notify that the execution is incomplete but unable to proceed.
-        if workflow_state.status in statuses.COMPLETED_STATUSES:
+        # workflow to notify that the execution is incomplete but unable to proceed. A canceled
+        # workflow is exempted because the cancellation itself keeps the remaining tasks from
+        # running and their joins from being satisfied.
+        if (
+            workflow_state.status in statuses.COMPLETED_STATUSES
+            and workflow_state.status != statuses.CANCELED
+        ):
             unreachable_barriers = workflow_state.get_unreachable_barriers()
 
             # If there are unreachable barrier tasks, then change workflow status to failed
